@@ -442,6 +442,12 @@ pub fn sigma_spaces(which: &[&str], tier: Tier) -> Vec<Space> {
                 v.push(sp("dlfamily", DL_FAMILY, if q { 4 } else { 5 }));
             }
             "dl" => v.push(sp("dlfamily", DL_FAMILY, if q { 4 } else { 5 })),
+            "aliasopen" => {
+                // the alias / exotic characters among open-code atoms (macro-free: for C11)
+                let mut a: Vec<&str> = ALIAS_ATOMS.iter().copied().filter(|x| !x.starts_with('%') && !x.starts_with('&')).collect();
+                a.extend(["=", "'", "*", "/", ".", "$", "\n"]);
+                v.push(sp("alias-open-code", &a, if q { 3 } else { 4 }));
+            }
             other => panic!("unknown space {other}"),
         }
     }
